@@ -10,7 +10,10 @@ namespace GoPlugin.Instance.C17
 open GoPlugin Env Props.C17
 
 /-- The current source guards the host environment by `SkipHostEnv` and strips
-go-plugin's own conditional negotiation variables (and nothing else) from it. -/
+go-plugin's own conditional negotiation variables (and nothing else) from it,
+with a loop that examines every entry (a `range` over `os.Environ()` appending
+the kept entries to a fresh slice).  Fails on a tree that filters in place
+without re-examining the slot (witness `Props.C17.inplace_filter_witness`). -/
 theorem facts_good : Facts.env.Good := by decide
 
 theorem holds_controls_from_config (c : ClientCfg) (hc : CookieOk c) (cmdEnv hostEnv : List Bytes) :
@@ -36,5 +39,13 @@ theorem holds_host_env_passed (c : ClientCfg) (hskip : c.skipHostEnv = false) (c
     (hostEnv.filter (fun e => !(negotiationKeys.contains (cutKey e)))).Sublist
       (buildEnv Facts.env c cmdEnv hostEnv) :=
   host_env_passed _ facts_good c hskip cmdEnv hostEnv
+
+theorem holds_no_conditional_survives (c : ClientCfg) (hostEnv : List Bytes) :
+    ∀ e ∈ hostPart Facts.env c hostEnv, cutKey e ∉ conditionalKeys :=
+  no_conditional_survives _ facts_good c hostEnv
+
+theorem holds_conditional_entries_from_config (c : ClientCfg) (cmdEnv hostEnv : List Bytes) :
+    ∀ e ∈ buildEnv Facts.env c cmdEnv hostEnv, cutKey e ∈ conditionalKeys → e ∈ cmdEnv ∨ e ∈ configured c :=
+  conditional_entries_from_config _ facts_good c cmdEnv hostEnv
 
 end GoPlugin.Instance.C17
